@@ -17,6 +17,7 @@ constructors, push_leaf, compute_root and reset; Responder::reset calls it.  Bot
 The walk in get_paths is left only when the current level is empty (never at a fixed depth below 8 levels).
 Hashing: hash_leaf = hash([0x00, leaf]), hash_nodes = hash([0x01, left, right]), and MerkleTree::hash feeds every input slice whole and in order into one
 digest under self.algorithm, truncated to hash_len() (a proof binds only the bytes the leaf hash covers).
+Completes: the panic obligations of C08 that lie inside src/merkle.rs (index, arithmetic, capacity) hold for every sequence of batches the server feeds a reused tree.
 """
 NOT_DECIDED = "completeness for each of the 255 batch sizes and binding itself (collision resistance); the relational invariant level length = 2 x node_count"
 TRUSTED = ["Vec indexing / slice::chunks semantics", "ring digest"]
